@@ -52,6 +52,7 @@ type Func struct {
 	Pure        bool
 	NoReturn    bool
 	Opaque      bool // never auto-inline; without ensures results are havocked
+	NoFrame     bool // frame obligations are not generated (top-level actions without verified callers)
 	Props       []string
 	Foreach     *Foreach
 	Names       []string // alternative names for parameters? (unused)
@@ -114,7 +115,7 @@ var keywords = map[string]bool{
 	"requires": true, "ensures": true, "loop": true, "modifies": true, "transparent": true,
 	"trusted": true, "safe": true, "pure": true, "property": true, "mode": true, "noreturn": true, "opaque": true,
 	"forall": true, "assume": true, "let": true, "assert": true, "foreach": true, "results": true,
-	"implements": true, "sets": true, "note": true,
+	"implements": true, "sets": true, "note": true, "noframe": true,
 }
 
 type rawLine struct {
@@ -342,6 +343,11 @@ func Parse(path, src string) (*File, error) {
 				curF.Modifies = append(curF.Modifies, e)
 				curF.ModifiesTxt = append(curF.ModifiesTxt, p)
 			}
+		case "noframe":
+			if curF == nil {
+				return nil, errf("noframe outside func")
+			}
+			curF.NoFrame = true
 		case "transparent", "trusted", "safe", "pure", "noreturn", "opaque":
 			if curF == nil {
 				return nil, errf("%s outside func", c.kw)
